@@ -153,6 +153,25 @@ func robustInputs(bs *builtStream, rg *rng, level int) []robustInput {
 	}
 	ins = append(ins, robustInput{"garbage-with-sync", g2})
 	ins = append(ins, robustInput{"one-byte", []byte{0x47}}, robustInput{"193-bytes", append([]byte{0x47}, make([]byte, 192)...)})
+	// a PES whose header announces more header bytes than were received (the packets carrying its tail are lost: the unit is ended by the
+	// next unit start or by the end of the input), for announced packet lengths below, at and above what the header needs
+	for _, hl := range []int{176, 200, 255} {
+		for _, pl := range []int{0, 3, 3 + hl - 1, 3 + hl, 2000, 65535} {
+			for _, closed := range []bool{true, false} {
+				p := make([]byte, 188)
+				p[0], p[1], p[2], p[3] = 0x47, 0x41, 0x00, 0x10|byte(rg.intn(16))
+				copy(p[4:], []byte{0, 0, 1, 0xc0, byte(pl >> 8), byte(pl), 0x80, byte(rg.pick(0x00, 0x80, 0xc0, 0x3f)), byte(hl)})
+				copy(p[13:], rg.bytes(175))
+				m := append([]byte(nil), p...)
+				if closed {
+					q := append([]byte(nil), p...)
+					q[3] = q[3]&0xf0 | (q[3]+1)&0x0f
+					m = append(m, q...)
+				}
+				ins = append(ins, robustInput{fmt.Sprintf("pes-header-beyond-received-hl%d-pl%d", hl, pl), m})
+			}
+		}
+	}
 	// long units: n contiguous full packets of one PID between two unit starts (the reassembly buffer grows by large factors: 2 KB,
 	// 7 KB, 24 KB, 74 KB, in no particular order), as a PES-like unit, as garbage on the PAT PID and as an endless PES (no second start)
 	for _, n := range []int{130, 12, 400, 40} {
@@ -361,6 +380,9 @@ func runRobust(sc *streamScenario, rec *recorder, level int) {
 			for k := 0; k < 3; k++ {
 				cfgs = append(cfgs, all[rg.intn(len(all))])
 			}
+		}
+		if len(in.name) > 26 && in.name[:26] == "pes-header-beyond-received" {
+			cfgs = []robustCfg{{188, "bytes", "data"}, {-1, "bytes", "data"}}
 		}
 		if len(in.name) > 7 && in.name[:7] == "bigunit" {
 			cfgs = []robustCfg{{188, "bytes", "data"}, {-1, "bufio", "data"}, {188, "plain", "data"}}
